@@ -409,7 +409,9 @@ async def _run_scenario(loop, scn):
                 if kind == "quit":
                     s.raw.send("QUIT")
                 elif kind == "epsvarg":
-                    s.raw.send("EPSV 1")  # 522; whether the handler then ends the session is the model's call (generated closing codes)
+                    # 522 whatever the argument (RFC 2428's protocol numbers, ALL, anything else); whether the handler then
+                    # ends the session is the model's call (generated closing codes)
+                    s.raw.send(["EPSV 1", "EPSV 2", "EPSV ALL", "EPSV 3", "EPSV 2"][idx % 5])
                 elif kind == "close":
                     s.raw.close()
                 else:
